@@ -18,6 +18,7 @@ from __future__ import annotations
 
 import json
 import os
+import re
 import struct
 import subprocess
 import sys
@@ -44,7 +45,15 @@ RULE = ("unit: each of the 657 names alone, all 657 together, the full table, ra
         "height / alignment / nrow, col_rel_width, as_colheader, pageby_header, pageby_row, last_row, group_by on distinct "
         "cells, fig_align / fig_pos / sizes) -- the options are read from the classes' model_fields at run time "
         "(harness/optdraw.py), so options that are documented but without effect today, or added later, are drawn too; "
-        "a failure on such a document is re-run without each drawn option to name the options it needs; non-trivial = "
+        "a failure on such a document is re-run without each drawn option to name the options it needs; plus PAGINATED "
+        "documents (single-section 10..44 rows, multi-section 2..3 sections of 7..26 rows, page nrow 6..16, title / "
+        "header / footnote rows varying, so pages begin at every phase) whose body text colour, background, font and "
+        "the four border colours vary BY ROW in every broadcasting shape: p rows (one per table row, a recycled pattern "
+        "of 2..nr-1 rows, more rows than the table) x q columns (1 as tuple or one-element rows, one per column, a "
+        "recycled column pattern of 2..nc-1, more than the row has), also per-column lists shorter than the row; each "
+        "cell's \\cf \\cb \\chcbpat \\f AND the \\brdrcf of each of its edges are resolved against the colour "
+        "requested for that (table row, column, side) under value[r % rows][c % columns]; with and without the other "
+        "constructor options on top; non-trivial = "
         "at least one non-default colour resolved; distinct by (kind, colour table, references)")
 TRUSTED = [
     "Lean 4.33 kernel; axioms ⊆ {propext, Classical.choice, Quot.sound} (audited per theorem on every run)",
@@ -52,8 +61,8 @@ TRUSTED = [
     "harness/translate.py: Generated.colorTable / fontTable / fontNumberToName are the tables of /repo",
     "harness/rtfread.py (Python RTF reader: colour table, font table, character properties of runs, cell borders)",
     "the requested colour / font of an element is read from the document spec by the harness (documented "
-    "broadcasting: scalar, per line, per column, per row, matrix); documents stay on one page wherever the attribute "
-    "varies by row (row/format association across pages is C09's subject)",
+    "broadcasting value[r % rows][c % columns] with r the row of the TABLE (not of the page): scalar, per line, per "
+    "column, per row, matrix, recycled row / column patterns), on one page and over several pages",
     "eight anchor colours (red, green, blue, white, black, yellow, cyan, magenta) pin the table to the X11/R values",
 ]
 MANIFEST = dict(
@@ -67,9 +76,13 @@ MANIFEST = dict(
          "printed as \\f{n-1} and the font table entry \\f{n-1} carries its name. Model tied to the code on every run "
          "by unit correspondence (all 657 names, random lists) and by whole documents read back from rtf_encode() "
          "under several PYTHONHASHSEED values; the Lean oracle checkRefs judges the implementation's parsed output.",
-    note="Border colours are collected but never printed by the unchanged code (D11, C09); C12 only checks that a "
-         "\\brdrcf, if present, resolves. The element→requested-colour mapping comes from the harness' reading of the "
-         "spec; row-varying attributes are used on single-page documents only. A column header without text is filled "
+    note="Border colours: a \\brdrcf of a body cell of the row-pattern documents must resolve to the colour requested for "
+         "that cell's edge (row, column, side); any other \\brdrcf (headers, footnote, source, bodies with scalar border "
+         "colours) must resolve to one of the requested border colours. border_color_first / _last are collected but "
+         "printed on no cell. The element→requested-colour mapping comes from the harness' reading of the "
+         "spec; row-varying attributes are used on single-page documents and on paginated single- and multi-section "
+         "documents (not together with page_by, where group headings share the body's attributes: scalar there). "
+         "A column header without text is filled "
          "with the displayed column names (sentinel-named columns) and judged like a header with text; when two "
          "text-less headers of a section print the same name, the k-th occurrence on a page is the k-th header's. "
          "Components that print nothing (title / subline / footnote / source / page footer without text, a text-less "
@@ -658,6 +671,180 @@ def gen_doc(rng, names, groups):
     return dict(kind=kind, spec=spec, want=want, elements=elements, counts=counts, border_cols=border_cols, k=k)
 
 
+# ------------------------------------------------------------------ observation level: row-wise attributes over SEVERAL PAGES
+
+SIDE_FIELDS = dict(l="border_color_left", r="border_color_right", t="border_color_top", b="border_color_bottom")
+
+
+def pattern_len(rng, n, label):
+    """length of a pattern along an axis of n elements: the whole axis, a short pattern that is recycled (2..5), any
+    shorter length, or (rarely) longer than the axis (the surplus is never reached)"""
+    r = rng.random()
+    if n <= 2 or r < 0.22:
+        return n, label + "=full"
+    if r < 0.62:
+        return rng.randint(2, min(5, n - 1)), label + "<n(recycled,2..5)"
+    if r < 0.9:
+        return rng.randint(2, n - 1), label + "<n(recycled)"
+    return n + rng.randint(1, 3), label + ">n"
+
+
+def pattern_attr(rng, mk, nr, nc):
+    """an attribute of a table component that varies BY ROW, in every shape the documented broadcasting
+    (`value[r % rows][c % columns]`) accepts: p rows (one per table row, a recycled pattern shorter than the table, more
+    than the table has) × q columns (one -- spelled as a tuple or as one-element rows --, one per column, a recycled
+    column pattern shorter than the row, more than the row has).  → (value, row-pattern length, labels)"""
+    p, lp = pattern_len(rng, nr, "rows")
+    r = rng.random()
+    if r < 0.3 or nc == 1:
+        q, lq = 1, "cols=1"
+    elif r < 0.7 or nc == 2:
+        q, lq = nc, "cols=full"
+    elif r < 0.92:
+        q, lq = rng.randint(2, nc - 1), "cols<n(recycled)"
+    else:
+        q, lq = nc + rng.randint(1, 2), "cols>n"
+    if q == 1 and rng.random() < 0.5:
+        return {"__tuple__": [mk() for _ in range(p)]}, p, [lp, lq + "(tuple)"]
+    return [[mk() for _ in range(q)] for _ in range(p)], p, [lp, lq]
+
+
+def column_pattern_attr(rng, mk, nc):
+    """an attribute that varies by column only: scalar, one value per column, or a recycled column pattern"""
+    r = rng.random()
+    if r < 0.35 or nc == 1:
+        return mk(), "scalar"
+    if r < 0.75 or nc == 2:
+        return [mk() for _ in range(nc)], "per-column"
+    return [mk() for _ in range(rng.randint(2, nc - 1))], "per-column<n(recycled)"
+
+
+def gen_body_rows(rng, pal, sec, nr, nc, want, bwant, elements, counts, periods):
+    """body of nr × nc sentinels whose text colour, background, font and border colours are mostly row patterns;
+    bwant: sentinel → requested colour of each edge {l, t, r, b}; periods: the row-pattern lengths drawn"""
+    font = lambda: rng.randint(1, 10)  # noqa: E731
+    mkc = lambda: pal.one(blank=0.1)  # noqa: E731
+    kw, vals, bcols = {}, {}, []
+
+    def draw(field, mk, p_rows):
+        r = rng.random()
+        if r < p_rows:
+            v, p, labs = pattern_attr(rng, mk, nr, nc)
+            periods.append(p)
+            counts.extend(f"rowpaged:{'border_color' if field.startswith('border') else field}:{x}" for x in labs)
+        elif r < p_rows + 0.2:
+            v, lab = column_pattern_attr(rng, mk, nc)
+            counts.append(f"rowpaged:{'border_color' if field.startswith('border') else field}:{lab}")
+        else:
+            return None
+        kw[field] = v
+        return v
+
+    which = rng.choice(["tc", "bg", "bc", "ft", "tc+bg", "tc+bc", "bg+bc", "all", "all", "all"])
+    counts.append("rowpaged_attrs:" + which)
+    tc = draw("text_color", mkc, 0.85) if which in ("tc", "tc+bg", "tc+bc", "all") else None
+    bg = draw("text_background_color", mkc, 0.85) if which in ("bg", "tc+bg", "bg+bc", "all") else None
+    ft = draw("text_font", font, 0.85) if which in ("ft", "all") or rng.random() < 0.3 else None
+    sides = {}
+    if which in ("bc", "tc+bc", "bg+bc", "all"):
+        for side in rng.sample("ltrb", rng.randint(1, 4)):
+            sides[side] = draw(SIDE_FIELDS[side], mkc, 0.8)
+        if rng.random() < 0.15:     # collected, never printed on a cell
+            f = rng.choice(["border_color_first", "border_color_last"])
+            kw[f] = mkc()
+            bcols.append(kw[f])
+    rows = []
+    for i in range(nr):
+        row = []
+        for j in range(nc):
+            s = f"s{sec}r{i}c{j}z"
+            row.append(s)
+            want[s] = [pick(tc, i, j, False) or "", pick(bg, i, j, False) or "", pick(ft, i, j, False) or 1]
+            bwant[s] = {side: pick(sides.get(side), i, j, False) or "" for side in "ltrb"}
+            bcols.extend(x for x in bwant[s].values() if x)
+            elements.append([s, "body", sec, i, j])
+        rows.append(row)
+    return kw, rows, sorted(set(bcols))
+
+
+def gen_doc_rowpaged(rng, names, groups):
+    """PAGINATED documents (single-section and multi-section, every section longer than a page) whose body attributes
+    vary by row: per-row values, full matrices and recycled row / column patterns of every length, for text colour,
+    background, font and the four border colours.  Which table rows start a page follows from the page size, the
+    title / header / footnote rows and the section lengths drawn here, so pages begin at every phase of the patterns."""
+    multi = rng.random() < 0.4
+    want, bwant, elements, counts, border_cols, periods = {}, {}, [], [], [], []
+    k = rng.choice([2, 3, 3, 4, 4, 5, 6, 8])
+    pal = Palette(rng, names, groups, k)
+    spec = dict(kind="multi" if multi else "table")
+    for role in ("title", "subline", "page_header", "page_footer"):
+        if rng.random() < 0.35:
+            spec[role] = gen_text_comp(rng, pal, role, want, elements)
+    for role in ("footnote", "source"):
+        if rng.random() < 0.3:
+            spec[role] = gen_text_comp(rng, pal, role, want, elements, bcols=border_cols)
+    spec["page"] = dict(nrow=rng.randint(6, 16))
+    for f in ("page_title", "page_footnote", "page_source"):
+        if rng.random() < 0.3:
+            spec["page"][f] = rng.choice(["all", "first", "last"])
+    nc = rng.randint(1, 4)
+    out = dict(kind="multi-paged-rows" if multi else "paged-rows", spec=spec, want=want, bwant=bwant, elements=elements,
+               counts=counts, border_cols=border_cols, k=k, periods=periods)
+    if multi:
+        nsec = rng.randint(2, 3)
+        spec["df"], spec["body"] = [], []
+        nested = rng.random() < 0.6
+        hdrs = []
+        for s in range(nsec):
+            spal = Palette(rng, names, groups, rng.randint(2, 5)) if rng.random() < 0.7 else pal
+            nr = rng.randint(7, 26)
+            kw, rows, bc = gen_body_rows(rng, spal, s, nr, nc, want, bwant, elements, counts, periods)
+            border_cols += bc
+            spec["df"].append(dict(cols=[f"c{j}" for j in range(nc)], rows=rows))
+            spec["body"].append(kw)
+            if nested:
+                hdrs.append([gen_header(rng, spal, s, 0, nc, want, elements, border_cols)] if rng.random() < 0.8 else [None])
+        if nested:
+            spec["headers"] = hdrs
+        elif rng.random() < 0.7:
+            spec["headers"] = [gen_header(rng, pal, 0, 0, nc, want, elements, border_cols)]
+        else:
+            spec["headers"] = []
+        return out
+    nr = rng.randint(10, 44)
+    kw, rows, bc = gen_body_rows(rng, pal, 0, nr, nc, want, bwant, elements, counts, periods)
+    border_cols += bc
+    spec["df"] = dict(cols=[f"c{j}" for j in range(nc)], rows=rows)
+    spec["body"] = kw
+    r = rng.random()
+    if r < 0.5:
+        spec["headers"] = [gen_header(rng, pal, 0, 0, nc, want, elements, border_cols)]
+    elif r < 0.65:
+        spec["headers"] = [gen_header(rng, pal, 0, 0, 1, want, elements, border_cols),
+                           gen_header(rng, pal, 0, 1, nc, want, elements, border_cols)]
+        spec["headers"][0]["col_rel_width"] = [1]
+    elif r < 0.8:
+        spec["headers"] = []
+    return out
+
+
+def rowpaged_labels(case, ob):
+    """what the pagination of a row-pattern document turned out to be (evidence: the class is really reached)"""
+    starts = [s for s in ob.get("page_starts") or [] if s is not None]
+    labs = ["rowpaged_pages:" + ("1" if len(starts) <= 1 else "2..3" if len(starts) <= 3 else "4+")]
+    nrows = {}
+    for el in case["elements"]:
+        if el[1] == "body":
+            nrows[el[2]] = max(nrows.get(el[2], 0), el[3] + 1)
+    short = [p for p in case.get("periods") or [] if 1 < p < max(nrows.values(), default=0)]
+    off = [(s, r, p) for s, r in starts for p in short if r > 0 and r % p != 0]
+    if off:
+        labs.append("rowpaged:a-page-starts-inside-a-recycled-pattern(start % rows != 0)")
+    elif short and any(r > 0 for _, r in starts):
+        labs.append("rowpaged:every-page-starts-at-a-pattern-boundary")
+    return labs
+
+
 # ------------------------------------------------------------------ observation level: components WITHOUT text of their own
 
 PAGE_HEADER_DEFAULT_TOKENS = ["Page", "\u27e6PAGE\u27e7", "of", "\u27e6NUMPAGES\u27e7"]  # runs of the default page-header text
@@ -998,9 +1185,12 @@ def _dump_doc(doc):
     return out, index, hmap
 
 
+BODY_SENTINEL = re.compile(r"s(\d+)r(\d+)c\d+z")          # gen_body: section, table row, column
+
+
 def _observe(rtf_text):
     doc = rtfread.read(rtf_text)
-    runs, borders = [], []
+    runs, borders, cell_borders, page_starts = [], [], [], []
 
     def walk(blocks):
         for b in blocks:
@@ -1012,12 +1202,30 @@ def _observe(rtf_text):
                     for side, bd in d.borders.items():
                         if bd.get("color") is not None:
                             borders.append(bd["color"])
+                # the coloured edges of every cell, joined with the text the cell prints (cell k of a row is described
+                # by the k-th cell definition of that row)
+                if len(b.defs) == len(b.cells):
+                    for d, c in zip(b.defs, b.cells):
+                        t = "".join(r.text for r in c.runs).strip()
+                        for side, bd in d.borders.items():
+                            if t and bd.get("color") is not None:
+                                cell_borders.append([t, side, bd["color"]])
             elif b.kind in ("para", "loose"):
                 for r in b.runs:
                     runs.append(r)
 
     for p in doc.pages:
         walk(p.blocks)
+        # the first body cell of the page: [section, table row] (which table rows start a page)
+        first = None
+        for b in p.blocks:
+            if b.kind == "row" and first is None:
+                for c in b.cells:
+                    mm = BODY_SENTINEL.fullmatch("".join(r.text for r in c.runs).strip())
+                    if mm:
+                        first = [int(mm.group(1)), int(mm.group(2))]
+                        break
+        page_starts.append(first)
     for h in doc.headers + doc.footers:
         walk(h)
     seen = []
@@ -1028,7 +1236,8 @@ def _observe(rtf_text):
         p = r.props
         seen.append([t, p.get("f"), p.get("cf"), p.get("cb"), p.get("chcbpat")])
     return dict(has_table=doc.has_colortbl, entries=[None if c is None else list(c) for c in doc.colors],
-                fonts=[[k, v.get("name", "")] for k, v in sorted(doc.fonts.items())], runs=seen, borders=borders)
+                fonts=[[k, v.get("name", "")] for k, v in sorted(doc.fonts.items())], runs=seen, borders=borders,
+                cell_borders=cell_borders, page_starts=page_starts)
 
 
 def _doc_worker(case):
@@ -1161,6 +1370,12 @@ def doc_requests(case, ob):
                 if v:
                     uses.append([v, ""])
                     owners.append((t, nm + " on untagged text", v))
+    # the coloured edges of body cells whose requested border colours are known per (row, column, side)
+    bwant = case.get("bwant") or {}
+    for t, side, v in ob.get("cell_borders") or []:
+        if t in bwant:
+            uses.append([v, bwant[t].get(side, "")])
+            owners.append((t, "\\brdrcf (%s edge)" % dict(l="left", r="right", t="top", b="bottom").get(side, side), v))
     # a negative index never refers to an entry: present it to the Lean checker as an index beyond every table
     uses = [[u[0] if u[0] >= 0 else 10 ** 6, u[1]] for u in uses]
     oracle = dict(op="c12_check", has_table=ob["has_table"], entries=ob["entries"], uses=uses, fonts=ob["fonts"],
@@ -1278,9 +1493,15 @@ def run_docs(res, tier, names, groups, corpus=()):
         cases.append(gen_doc(sub_rng(res.seed, "c12doc", k), names, groups))
     for k in range(240 if tier == "quick" else 2500):  # components without text of their own
         cases.append(gen_doc_auto(sub_rng(res.seed, "c12auto", k), names, groups))
+    for k in range(200 if tier == "quick" else 2000):  # row-wise attributes (recycled patterns) over several pages
+        cases.append(gen_doc_rowpaged(sub_rng(res.seed, "c12rows", k), names, groups))
     sch = optdraw.schema()                               # (computed in a worker process)
     for k in range(320 if tier == "quick" else 3000):  # every other constructor option of the page and the components
         cases.append(gen_doc_options(sub_rng(res.seed, "c12opt", k), names, groups, sch))
+    for k in range(80 if tier == "quick" else 800):    # … and the row-pattern documents with the options on top
+        base = gen_doc_rowpaged(sub_rng(res.seed, "c12rowsopt", k), names, groups)
+        base["kind"] += "+options"
+        cases.append(add_options(sub_rng(res.seed, "c12rowsopt-o", k), base, sch, False))
     own = OWN_ALL + tuple(x for v in OWN_STRUCT.values() for x in v)
     res.extra["options"] = dict(
         classes={c: len(f) for c, f in sch["classes"].items()},
@@ -1303,6 +1524,10 @@ def run_docs(res, tier, names, groups, corpus=()):
             case["occ"] = c["occ"]
         if c.get("options"):
             case["options"] = c["options"]
+        if c.get("bwant"):
+            case["bwant"] = c["bwant"]
+            for lab in rowpaged_labels(c, ob) if ob["status"] == "ok" else []:
+                res.count(lab)
         res.count("doc:" + c["kind"])
         res.count(f"doc_colours:{c.get('k', '?')}")
         for lab in c.get("counts", []):
@@ -1340,6 +1565,12 @@ def run_docs(res, tier, names, groups, corpus=()):
             small, why = sh
             res.failures.pop(nf)
             res.failures.insert(0, (dict(case, spec=small["spec"], options=small["options"]), why))
+    # the smallest failing document first (it becomes the replay)
+    docf = [i for i, (fc, _) in enumerate(res.failures) if isinstance(fc, dict) and fc.get("level") == "doc"]
+    if len(docf) > 1:
+        best = min(docf, key=lambda i: (not any(w in res.failures[i][1] for w in ("\\cf", "\\cb", "\\chcbpat", "\\brdrcf")),
+                                        len(json.dumps(res.failures[i][0].get("spec")))))
+        res.failures.insert(docf[0], res.failures.pop(best))
     res.extra["hashseeds_used"] = len(hashseeds)
 
 
@@ -1355,7 +1586,8 @@ def load_corpus():
                 out.append(dict(kind=c.get("kind", "table"), spec=c["spec"], want=c["want"],
                                 elements=[[e[0], e[1], tuple(e[2]) if isinstance(e[2], list) else e[2]] + list(e[3:])
                                           for e in c["elements"]],
-                                border_cols=c.get("border_cols", []), occ=c.get("occ") or {}, counts=[], k="corpus"))
+                                border_cols=c.get("border_cols", []), occ=c.get("occ") or {}, counts=[], k="corpus",
+                                bwant=c.get("bwant") or {}))
     return out
 
 
@@ -1401,7 +1633,8 @@ def replay(payload) -> int:
         c = dict(kind=case.get("kind"), spec=case["spec"], want=case["want"],
                  elements=[[e[0], e[1], tuple(e[2]) if isinstance(e[2], list) else e[2]] + list(e[3:])
                            for e in case["elements"]],
-                 border_cols=case.get("border_cols", []), occ=case.get("occ") or {}, options=case.get("options") or [])
+                 border_cols=case.get("border_cols", []), occ=case.get("occ") or {}, options=case.get("options") or [],
+                 bwant=case.get("bwant") or {})
         hs = case.get("hashseed") or "0"
         ob = run_in_fresh_processes([c], [hs])[0]
         print("status:", ob["status"], ob.get("exc", ""), ob.get("msg", ""))
